@@ -292,7 +292,9 @@ def predict(sh: Shard, case, ref, mechs: tuple) -> dict:
         if not os.path.exists(dumper):
             with open(dumper, "w") as f:
                 f.write(DUMPER)
-        rc, out = sh_run(sh.scratch, f"{exports}python3 {dumper} {toks}")
+        # same tail as create_command: a raw token can swallow or be changed by what follows it (`\\`, `#`, quotes)
+        tail = (" > vfpred_stdout" if "so" in tool["outputs"] else "") + (" 2>vfpred_stderr" if "se" in tool["outputs"] else " 2>&1")
+        rc, out = sh_run(sh.scratch, f"{exports}python3 {dumper} {toks}{tail}")
         sh.count("sh_predictions")
         try:
             seen = json.loads(out.strip().splitlines()[-1]) if rc == 0 else None
